@@ -11,6 +11,13 @@ lookup    directory trees in which x.h is present/absent in each of {cwd, includ
           line) publishes read_<loc> under #ifdef: the database shows WHICH copy was read and
           WHETHER it was treated as the user's own.  parse_file repeats the "which copy" part.
           Oracle: the rule of the property, transcribed (expected_lookup).
+nested    the includer of x.h is itself reached through an #include: chains of 2 and 3 files, the
+          middle file found through {its includer's directory, -I, -S, the working directory}
+          by a reference with or without a directory component, x.h present/absent in {cwd,
+          cwd/<directory part of the reference> (decoy), the directory where the includer
+          really is, I1, S1} x {"x.h", <x.h>} plus a __has_include probe of the same name
+          (thorough: x swapped -I/-S order x -noangles).  Oracle: the literal rule with "the
+          including file's directory" = where that file was FOUND.
 explicit  a header that is named on the command line AND reached through an #include of another
           command-line file: {reached first through the include, named first} x where the include
           is resolved {working directory, includer's directory, -I, -S with "..", -S with <..>;
@@ -248,6 +255,214 @@ def lookup_family(ck, b, thorough):
                             {"case": c, "expected": e, "observed": "; ".join(bad), "run": o},
                             confirm=lambda c=c: bool(judge_lookup(c, run_lookup(
                                 b, os.path.join(rootdir, "+".join(c["mask"]) or "none"), outdir, c, "confirm"))[1]))
+    return len(cases)
+
+
+# ----------------------------------------------------------------------------- nested
+# The includer of x.h is itself reached through an #include (chain of 2 or 3 files): "the including
+# file's directory" is the directory where that file was actually FOUND, not the directory part
+# of the string by which it was referred to.
+NEST_REACH = ("incdir", "I", "S", "cwd")          # how the middle file b.h is found
+NEST_CHAIN = ("2", "3c", "3deep")                  # top->b ; top->b->"c.h" ; top->b->"deep/c.h"
+
+
+def nested_layout(t, reach, dirref, chain):
+    """-> dict describing one structural tree below the working directory t"""
+    base = {"incdir": os.path.join(t, "d"), "I": os.path.join(t, "J"), "S": os.path.join(t, "K"), "cwd": t}[reach]
+    bdir = os.path.join(base, "lib") if dirref else base
+    bref = "lib/b_%s.h" if dirref else "b_%s.h"
+    if chain == "2":
+        real, lastrefdir = bdir, ("lib" if dirref else "")
+    elif chain == "3c":
+        real, lastrefdir = bdir, ""
+    else:
+        real, lastrefdir = os.path.join(bdir, "deep"), "deep"
+    roles = [("cwd", t), ("real", real)]
+    if lastrefdir:
+        roles.append(("decoy", os.path.join(t, lastrefdir)))
+    roles += [("i1", os.path.join(t, "I1")), ("s1", os.path.join(t, "S1"))]
+    label = {}
+    for name, path in roles:
+        label.setdefault(path, name)       # two roles on one physical directory share a label
+    return {"t": t, "topdir": os.path.join(t, "d") if reach == "incdir" else t, "bdir": bdir,
+            "bref": bref, "real": real, "label": label, "locs": list(label.values()),
+            "paths": {v: k for k, v in label.items()},
+            "opts": {"I": ["-I", "J"], "S": ["-S", "K"]}.get(reach, [])}
+
+
+NEST_MARK_TAIL = "#ifdef HAS_X\nvoid has_x();\n#endif\n__end_publish\n"
+
+
+def make_nested_tree(root, reach, dirref, chain, mask):
+    t = os.path.join(root, "t")
+    L = nested_layout(t, reach, dirref, chain)
+    for d in ("I1", "S1", "J", "K", "d"):
+        os.makedirs(os.path.join(t, d), exist_ok=True)
+    for path in L["label"]:
+        os.makedirs(path, exist_ok=True)
+    for lab in mask:
+        write(os.path.join(L["paths"][lab], "x.h"), xh_text(lab))
+    for form in "qa":
+        probe = ('#if __has_include("x.h")\n#define HAS_X 1\n#endif\n' if form == "q"
+                 else "#if __has_include(<x.h>)\n#define HAS_X 1\n#endif\n")
+        inner = probe + inc_line(form)
+        if chain == "2":
+            write(os.path.join(L["bdir"], "b_%s.h" % form), inner)
+        else:
+            cref = ("c_%s.h" if chain == "3c" else "deep/c_%s.h") % form
+            write(os.path.join(L["bdir"], "b_%s.h" % form), '#include "%s"\n' % cref)
+            write(os.path.join(L["real"], "c_%s.h" % form), inner)
+        bref = L["bref"] % form
+        topinc = "#include <%s>\n" % bref if reach == "S" else '#include "%s"\n' % bref
+        write(os.path.join(L["topdir"], "top_%s.h" % form),
+              topinc + markers(L["locs"]).replace("__end_publish\n", NEST_MARK_TAIL))
+    return L
+
+
+def expected_nested(c, L):
+    t = L["t"]
+    present = {L["paths"][lab] for lab in c["mask"]}
+    optdirs = []
+    if c["reach"] == "I":
+        optdirs.append(("I", os.path.join(t, "J")))
+    if c["reach"] == "S":
+        optdirs.append(("S", os.path.join(t, "K")))
+    tail = [("I", os.path.join(t, "I1")), ("S", os.path.join(t, "S1"))]
+    if c.get("swap"):
+        tail.reverse()
+    optdirs += tail
+    quote = c["form"] == "q" or c.get("noangles")
+    if quote:
+        cands = [("cwd", t), ("includer", L["real"])] + optdirs
+    else:
+        cands = [(fl, d) for fl, d in optdirs if fl == "S"]
+    for how, d in cands:
+        if d in present:
+            return {"read": L["label"][d], "own": how == "cwd", "how": how}
+    return {"read": None, "own": False, "how": "notfound"}
+
+
+def nested_key(c):
+    return "nested/%s/%s/%s/%s/%s%s%s/%s" % (c["tool"], c["reach"], "dirref" if c["dirref"] else "flat",
+                                           c["chain"], c["form"], "n" if c.get("noangles") else "",
+                                           "s" if c.get("swap") else "", "+".join(c["mask"]) or "none")
+
+
+def nested_treeroot(rootdir, c):
+    return os.path.join(rootdir, "%s-%d-%s" % (c["reach"], c["dirref"], c["chain"]), "+".join(c["mask"]) or "none")
+
+
+def run_nested(b, treeroot, outdir, c, tag):
+    t = os.path.join(treeroot, "t")
+    L = nested_layout(t, c["reach"], c["dirref"], c["chain"])
+    top = ("d/" if c["reach"] == "incdir" else "") + "top_%s.h" % c["form"]
+    tail = ["-I", "I1", "-S", "S1"]
+    if c.get("swap"):
+        tail = ["-S", "S1", "-I", "I1"]
+    dargs = L["opts"] + tail
+    if c["tool"] == "interrogate":
+        od = os.path.join(outdir, "%s.in" % tag)
+        cmd = [b["interrogate"], "-od", od, "-module", "m", "-library", "l", "-v"] + dargs
+        if c.get("noangles"):
+            cmd.append("-noangles")
+        cmd.append(top)
+        r = tools.run(cmd, cwd=t, b=b)
+        try:
+            text = open(od).read()
+            os.unlink(od)
+        except OSError:
+            text = ""
+        read, own = observe_names(text)
+    else:
+        cmd = [b["parse_file"]] + dargs + [top]
+        r = tools.run(cmd, cwd=t, b=b)
+        text = r.out
+        read, own = observe_names(text)
+        own = None
+    return {"rc": r.rc, "read": read, "own": own, "anchor": "anchor" in text,
+            "has_x": bool(re.search(r"\bhas_x\b", text)),
+            "warn": "Cannot find x.h" in r.err, "stderr": r.err[-600:], "cmd": cmd, "cwd": t}
+
+
+def judge_nested(c, o, e):
+    bad = []
+    if o["rc"] != 0:
+        bad.append("exit status %s" % o["rc"])
+    if not o["anchor"]:
+        bad.append("the command-line file's own declarations are missing")
+    exp_read = [e["read"]] if e["read"] else []
+    if o["read"] != exp_read:
+        bad.append("copy read by the nested include: expected %s, observed %s" % (exp_read or "none (skipped)", o["read"] or "none"))
+    if o["own"] is not None:
+        exp_own = [e["read"]] if e["own"] else []
+        if o["own"] != exp_own:
+            bad.append("exported as the user's own: expected %s, observed %s" % (exp_own or "none", o["own"] or "none"))
+    if (e["read"] is None) != o["warn"]:
+        bad.append("'Cannot find' warning %s" % ("missing" if e["read"] is None else "printed although the file is found"))
+    if o["has_x"] != (e["read"] is not None):
+        bad.append("__has_include gave %s where the same #include %s" % (int(o["has_x"]), "finds the file" if e["read"] else "finds nothing"))
+    return bad
+
+
+def _nested_chunk(job):
+    binfo, rootdir, outdir, cases, base = job
+    out = []
+    for i, c in enumerate(cases):
+        out.append((c, run_nested(binfo, nested_treeroot(rootdir, c), outdir, c, "n%d_%d" % (base, i))))
+    return out
+
+
+def nested_family(ck, b, thorough):
+    rootdir = ck.scratch("nested")
+    outdir = ck.scratch("nested-out")
+    cases = []
+    layouts = {}
+    for reach in NEST_REACH:
+        for dirref in (0, 1):
+            for chain in NEST_CHAIN:
+                L0 = nested_layout("/T", reach, dirref, chain)
+                locs = L0["locs"]
+                for k in range(len(locs) + 1):
+                    for mask in itertools.combinations(locs, k):
+                        c0 = {"reach": reach, "dirref": dirref, "chain": chain, "mask": list(mask)}
+                        L = make_nested_tree(nested_treeroot(rootdir, c0), reach, dirref, chain, mask)
+                        layouts[nested_treeroot(rootdir, c0)] = L
+                        variants = [{}]
+                        if thorough:
+                            variants += [{"swap": True}, {"noangles": True}]
+                        for form in "qa":
+                            for v in variants:
+                                for tool in ("interrogate", "parse_file"):
+                                    if tool == "parse_file" and v.get("noangles"):
+                                        continue
+                                    c = dict(c0, fam="nested", form=form, tool=tool, **v)
+                                    cases.append(c)
+    chunk = 150
+    jobs = [(b, rootdir, outdir, cases[i:i + chunk], i) for i in range(0, len(cases), chunk)]
+    done = 0
+    for j in range(0, len(jobs), 64):
+        if ck.expired(reserve=30):
+            ck.cap("nested: deadline after %d of %d cases" % (done, len(cases)))
+            break
+        for res in pmap_proc(_nested_chunk, jobs[j:j + 64]):
+            for c, o in res:
+                done += 1
+                L = layouts[nested_treeroot(rootdir, c)]
+                e = expected_nested(c, L)
+                bad = judge_nested(c, o, e)
+                key = nested_key(c)
+                # non-trivial: the directory where the includer was found differs from the
+                # working directory, and presence alone does not decide (0 or >= 2 copies)
+                ck.note(key, nontrivial=L["real"] != L["t"] and len(c["mask"]) != 1,
+                        outcome="nested:%s:%s" % (e["how"], "own" if e["own"] else "notown"),
+                        family="nested-" + c["tool"],
+                        sample={"case": c, "expected": e,
+                                "observed": {k: o[k] for k in ("rc", "read", "own", "warn", "has_x")}})
+                if bad:
+                    def confirm(c=c, L=L, e=e):
+                        return bool(judge_nested(c, run_nested(b, nested_treeroot(rootdir, c), outdir, c, "confirm"), e))
+                    ck.fail(key, "; ".join(bad), {"case": c, "expected": e, "observed": "; ".join(bad), "run": o},
+                            confirm=confirm)
     return len(cases)
 
 
@@ -765,6 +980,13 @@ def replay(ck, b):
         o = run_lookup(b, root, out, c, "replay")
         e, bad = judge_lookup(c, o)
         print("expected:", e)
+    elif fam == "nested":
+        root = ck.scratch("replay-tree")
+        L = make_nested_tree(root, c["reach"], c["dirref"], c["chain"], c["mask"])
+        o = run_nested(b, root, out, c, "replay")
+        e = expected_nested(c, L)
+        print("expected:", e)
+        bad = judge_nested(c, o, e)
     elif fam == "explicit":
         t = make_spell_tree(ck.scratch("replay-tree"), c["variant"])
         extend_spell_tree_for_explicit(t)
@@ -809,9 +1031,9 @@ def main():
     if ck.replay:
         return replay(ck, b)
     fams = {"lookup": lookup_family, "explicit": explicit_family, "once": once_family,
-            "dirspell": dirspell_family, "norm": norm_family}
+            "dirspell": dirspell_family, "norm": norm_family, "nested": nested_family}
     counts = {}
-    for name in ("norm", "explicit", "once", "dirspell", "lookup"):
+    for name in ("norm", "explicit", "once", "dirspell", "nested", "lookup"):
         if ck.only and name not in ck.only:
             continue
         if ck.expired(reserve=20):
@@ -821,14 +1043,14 @@ def main():
     ck.extra["family_sizes"] = counts
     return ck.finish(
         rule="one case = one execution of interrogate / parse_file in a constructed directory tree "
-             "(lookup, explicit, once, dirspell) or one path string evaluated by fnorm (norm). "
+             "(lookup, nested, explicit, once, dirspell) or one path string evaluated by fnorm (norm). "
              "Non-trivial: lookup = the number of candidate places holding a copy of x.h is not "
              "exactly one (order, not presence, decides; or nothing may be found); explicit / "
              "dirspell = a spelling other than the plain one; once = two different spellings; "
              "norm = the path resolves and standardize() changes the string",
         exhaustive=True,
         bound="lookup: 2^%d trees x all arrangements of all subsets of the -I/-S arguments x 2 forms "
-              "x -noangles x %s includers%s; explicit: 2 orders x 8 resolution places x 6-7 include spellings x 8 command-line spellings x 3 protections; once: all ordered pairs of 7 spellings x 3 modes x 2 protections + 8 single spellings; "
+              "x -noangles x %s includers%s; nested: 4 ways to reach the includer x reference with/without directory x 3 chains x all presence masks over <=5 places x 2 forms; explicit: 2 orders x 8 resolution places x 6-7 include spellings x 8 command-line spellings x 3 protections; once: all ordered pairs of 7 spellings x 3 modes x 2 protections + 8 single spellings; "
               "norm: all strings of <= %d components over 7 symbols x 3 prefixes x trailing slash"
               % (6 if thorough else 5, 3 if thorough else 2, " x -srcdir" if thorough else "",
                  5 if thorough else 4),
